@@ -426,6 +426,8 @@ struct Gen<'a> {
     tags: Vec<TagInfo>,
     vars: Vec<VarInfo>,
     any_output: bool,
+    /// > 0 while generating inside an @optional scope
+    opt_depth: u32,
 }
 
 fn op_index(op: Op) -> u32 {
@@ -567,7 +569,31 @@ impl<'a> Gen<'a> {
         if names.is_empty() {
             return None;
         }
-        let (name, ty) = names[self.t.draw(names.len() as u32) as usize].clone();
+        let (mut name, mut ty) = names[self.t.draw(names.len() as u32) as usize].clone();
+        // Tag bias: half of the time, if a tag defined earlier is still unused and some property
+        // here has its type, select that property and filter it against the tag (so that tags -
+        // count tags in particular - flow into later vertices and sibling folds instead of
+        // being stripped as unused).
+        let mut forced_tag: Option<usize> = None;
+        if self.cfg.bias_tags && self.cfg.f_tags && self.cfg.f_filters && self.t.chance(1, 2) {
+            let mut pairs: Vec<(usize, usize)> = vec![];
+            for (ti, tg) in self.tags.iter().enumerate() {
+                if tg.used || !Self::tag_available(tg, vid, path) || tg.ty.is_list() {
+                    continue;
+                }
+                for (ni, (_, nty)) in names.iter().enumerate() {
+                    if !nty.is_list() && tg.ty.eq_ignoring_nullability(nty) {
+                        pairs.push((ti, ni));
+                    }
+                }
+            }
+            if !pairs.is_empty() {
+                let (ti, ni) = pairs[self.t.draw(pairs.len() as u32) as usize];
+                name = names[ni].0.clone();
+                ty = names[ni].1.clone();
+                forced_tag = Some(ti);
+            }
+        }
         let alias = if self.cfg.f_aliases && self.t.chance(1, 4) {
             Some(self.fresh("a"))
         } else {
@@ -591,6 +617,19 @@ impl<'a> Gen<'a> {
             }
         }
         let mut filters = vec![];
+        if let Some(ti) = forced_tag {
+            let mut ops = vec![Op::Eq, Op::Ne];
+            if matches!(ty.base(), Base::Int | Base::Float | Base::Str) {
+                ops.extend([Op::Lt, Op::Le, Op::Gt, Op::Ge]);
+            }
+            let enabled: Vec<Op> =
+                ops.iter().copied().filter(|o| self.cfg.op_mask & (1 << op_index(*o)) != 0).collect();
+            if !enabled.is_empty() {
+                let op = enabled[self.t.draw(enabled.len() as u32) as usize];
+                self.tags[ti].used = true;
+                filters.push(QFilter { op, operand: Operand::Tag(self.tags[ti].name.clone()) });
+            }
+        }
         if self.cfg.f_filters {
             let nf = if self.cfg.bias_many_filters {
                 [0, 1, 1, 2, 3, 4][self.t.draw(6) as usize]
@@ -656,6 +695,11 @@ impl<'a> Gen<'a> {
             if self.cfg.bias_fold_count {
                 kinds.extend([2, 2, 2, 2]);
             }
+            // inside an @optional scope (optional bias): folds with tagged counts, so that count
+            // tags from folds that do not exist flow into later filters and sibling folds
+            if self.cfg.bias_optional && self.opt_depth > 0 {
+                kinds.extend([2, 2, 2]);
+            }
         }
         if self.cfg.f_recurse && self.world.schema.recurse_rule(node_ty, &edef).is_ok() {
             kinds.push(3);
@@ -684,8 +728,11 @@ impl<'a> Gen<'a> {
                 let allow_empty = true;
                 let node = self.gen_node(edef.target, depth + 1, &child_path, &child_prefix, allow_empty);
                 let mut fs = FoldSpec::default();
-                let want_count = self.cfg.f_count
-                    && (self.t.chance(1, 2) || (self.cfg.bias_fold_count && self.t.chance(3, 4)));
+                let under_opt = self.cfg.bias_optional && self.opt_depth > 0;
+                let want_count = (self.cfg.f_count || under_opt)
+                    && (self.t.chance(1, 2)
+                        || (self.cfg.bias_fold_count && self.t.chance(3, 4))
+                        || (under_opt && self.t.chance(3, 4)));
                 if want_count {
                     fs.transform_count = true;
                     if self.t.chance(1, 2) {
@@ -706,8 +753,11 @@ impl<'a> Gen<'a> {
                             fs.count_filters.push(f);
                         }
                     }
-                    let want_count_tag =
-                        if self.cfg.bias_tags { self.t.chance(2, 3) } else { self.t.chance(1, 3) };
+                    let want_count_tag = if self.cfg.bias_tags || under_opt {
+                        self.t.chance(2, 3)
+                    } else {
+                        self.t.chance(1, 3)
+                    };
                     if self.cfg.f_tags && want_count_tag {
                         let tname = self.fresh("t");
                         self.tags.push(TagInfo {
@@ -728,7 +778,9 @@ impl<'a> Gen<'a> {
                 Some(QEdge { name: edef.name, alias, params, kind: EdgeKind::Recurse(d), node })
             }
             1 => {
+                self.opt_depth += 1;
                 let node = self.gen_node(edef.target, depth + 1, path, &child_prefix, false);
+                self.opt_depth -= 1;
                 Some(QEdge { name: edef.name, alias, params, kind: EdgeKind::Optional, node })
             }
             _ => {
@@ -832,6 +884,7 @@ pub fn gen_query(world: &World, t: &mut Tape, cfg: QueryCfg) -> QueryAst {
         tags: vec![],
         vars: vec![],
         any_output: false,
+        opt_depth: 0,
     };
     let mut root = g.gen_node(ep.target, 1, &[1], "", false);
     if !g.any_output {
